@@ -13,7 +13,7 @@ def run(chk):
     chk.rule = ("cases in the shapes case language from tools/gen_shapes.py (seeded), rational carriers only (BD_Shape<mpq_class>, Octagonal_Shape<mpq_class>, "
                 "Rational_Box): histories mixing mutators with closure / reduction / observers so that operations meet closed, non-closed and reduced matrices "
                 "(status vectors counted), pairs disjoint only through a cycle alternating between the two shapes, twins (equal sets with different matrices, "
-                "one notch apart), constructors from polyhedra / generators / other domains; every predicate and query is compared with the exact reference "
+                "one notch apart), targeted batteries (half-open boxes met exactly by constraints, lazy closed / reduced state after dimension changes or added equalities vs a twin rebuilt from constraints, differences with straddled equalities, general-form transformers), constructors from polyhedra / generators / other domains; every predicate and query is compared with the exact reference "
                 "answer, exact operators by verified set equality, best operators with the best abstraction computed by sup_expr; distinct by (kind, operation text)")
     chk.trusted += shapescheck.TRUSTED
     chk.assumptions += [
